@@ -29,6 +29,8 @@ func init() {
 			{ID: "C08.9", Desc: "the variant list of a revalidation context is the list the matcher's position refers to", Run: ruleC08_9, MinSites: 1},
 			{ID: "C08.7", Desc: "a validated 200 is storable whatever forced the validation (evaluator ignores request no-cache / max-age)", Run: func(c *Ctx) { ruleEvaluatorRequestDirectives(c, "C08.7") }, MinSites: 1},
 			{ID: "C08.10", Desc: "a 304 freshens the stored response only when it answers the stored validators (no validator of the client reaches the origin)", Run: func(c *Ctx) { ruleClientValidatorsRemoved(c, "C08.10") }, MinSites: 1},
+			{ID: "C08.11", Desc: "the matcher's position refers to the caller's list", Run: func(c *Ctx) { ruleMatcherIndexesCallersSlice(c, "C08.11") }, MinSites: 1},
+			{ID: "C08.12", Desc: "the background reply is handled before the waiter (and with it the request context) is released", Run: func(c *Ctx) { ruleNoReleaseBeforeWriteBack(c, "C08.12") }, MinSites: 1},
 		},
 	})
 }
@@ -290,8 +292,49 @@ func ruleMergeFilter(c *Ctx, rule string) {
 			k, ok := constStr(key)
 			return ok && strings.EqualFold(k, "Age")
 		})
-		d := "the stored response's old Age is removed by the merge on every path"
+		d := "the stored response's old Age is removed by the merge on every path, before any field of the 304 is copied"
+		// ... and before the 304's fields are copied: a delete after the copy removes the 304's own Age as well
+		late := ""
 		if r.OK {
+			var dels []ssa.Instruction
+			instrsOf(m, func(in ssa.Instruction) {
+				cc := callOf(in)
+				if cc == nil {
+					return
+				}
+				var key ssa.Value
+				if callIsMethod(cc, "net/http", "Header", "Del") {
+					_, a := recvAndArgs(cc)
+					key = a[0]
+				} else if b, ok := cc.Value.(*ssa.Builtin); ok && b.Name() == "delete" && len(cc.Args) == 2 && isHTTPHeader(cc.Args[0].Type()) {
+					key = cc.Args[1]
+				}
+				if k, ok := constStr(key); key != nil && ok && strings.EqualFold(k, "Age") {
+					dels = append(dels, in)
+				}
+			})
+			instrsOf(m, func(in ssa.Instruction) {
+				isWrite := false
+				if mu, ok := in.(*ssa.MapUpdate); ok && isHTTPHeader(mu.Map.Type()) {
+					isWrite = true
+				}
+				if cc := callOf(in); cc != nil && (callIsMethod(cc, "net/http", "Header", "Set") || callIsMethod(cc, "net/http", "Header", "Add")) {
+					isWrite = true
+				}
+				if !isWrite {
+					return
+				}
+				for _, dl := range dels {
+					// the copy can be followed by the delete
+					if dl.Block() == in.Block() && instrDominates(in, dl) || dl.Block() != in.Block() && reachableAvoiding(in.Block(), dl.Block(), nil) && !instrDominates(dl, in) {
+						late = c.P.InstrPos(dl)
+					}
+				}
+			})
+		}
+		if r.OK && late != "" {
+			c.Fail(rule, "merge-drops-stored-age", d, late+": Age is deleted after fields of the 304 were copied: the 304's own Age (how old the freshened response already is) is lost, the age restarts at 0 and a stale must-revalidate response is served as a fresh HIT")
+		} else if r.OK {
 			c.Pass(rule, "merge-drops-stored-age", d, c.P.ShortName(m))
 		} else {
 			c.Fail(rule, "merge-drops-stored-age", d, c.P.ShortName(m)+": a return is reachable without deleting Age from the stored header; a response first received with `Age: 200, max-age=150` keeps Age 200 after every 304 and is revalidated on every request")
@@ -395,6 +438,39 @@ func ruleMergeFilter(c *Ctx, rule string) {
 			})
 			if !okSrc {
 				whole, why = false, c.P.InstrPos(w)+": the merged value is not the source field's value list"
+			}
+			// replaced, not extended: a value built by appending to something that is not empty keeps lines of the target
+			var apps []ssa.Value
+			seenV := map[ssa.Value]bool{}
+			var walkV func(v ssa.Value)
+			walkV = func(v ssa.Value) {
+				if seenV[v] {
+					return
+				}
+				seenV[v] = true
+				switch y := v.(type) {
+				case *ssa.Phi:
+					for _, e := range y.Edges {
+						walkV(e)
+					}
+				case *ssa.Call:
+					if b, ok := y.Call.Value.(*ssa.Builtin); ok && b.Name() == "append" {
+						apps = append(apps, y.Call.Args[0])
+					}
+				}
+			}
+			walkV(x.Value)
+			for _, base := range apps {
+				bk := c.sliceBacking(base)
+				foreign := false
+				for _, o := range bk {
+					if o != "fresh" && o != "nil" && o != "const" {
+						foreign = true
+					}
+				}
+				if foreign {
+					whole, why = false, c.P.InstrPos(w)+": the merged value is appended to an existing value list instead of replacing it"
+				}
 			}
 		default:
 			cc := callOf(w)
